@@ -224,6 +224,9 @@ class StmtMixin(object):
                 self.err(node, "symbolic list index store")
             base.items[int(c)] = val
             return
+        if type(base).__name__ == "PyObjV":
+            base.obj.setitem(self, idx, val)
+            return
         if isinstance(base, (Opaque, InstV)):
             self.log_event(("store", base.key()))
             return
